@@ -9,7 +9,7 @@ order independence.
 """
 import random
 
-from .. import model, refgram
+from .. import model, refgram, treeview
 from . import common as cm
 
 ID = "C06"
@@ -38,8 +38,24 @@ def gen_session(rng, tier, i):
         tb.append(model.clone(rng.choice(tb)))          # repeated identical sentence
         tb[-1]["sid"] = tb[-2]["sid"] + 1
     source = rng.choice(["api", "api", "export", "tigerxml", "discobrackets"])
+    trans = []
+    if rng.random() < 0.3:
+        # in-process transformations between reading and extraction: the grammar must be
+        # that of the tree actually handed to extract (judged on its raw dump)
+        trans = [list(x) for x in rng.choice(PIPELINES)]
     return {"tb": tb, "source": source, "shuffle": rng.randrange(1 << 30),
-            "layout": rng.randrange(1 << 30)}
+            "layout": rng.randrange(1 << 30), "trans": trans}
+
+
+PIPELINES = [
+    [["root_attach", {}]],
+    [["root_attach", {}], ["negra_mark_heads", {}], ["boyd_split", {}], ["raising", {}]],
+    [["punctuation_root", {}]],
+    [["add_topnode", {}]],
+    [["root_attach", {}], ["punctuation_verylow", {}]],
+    [["negra_mark_heads", {}], ["binarize", {}]],
+    [["collapse_unary_chains", {}]],
+]
 
 
 def generate(seed, tier):
@@ -59,9 +75,13 @@ def session_ops(s, i, files, order=None, dumps=True):
     """ops of one extraction session; order = permutation of sentence indices."""
     tb = s["tb"] if order is None else [s["tb"][j] for j in order]
     ops = [["gnew", "g"]]
+    pre = [["trans", "t", t[0], t[1]] for t in s.get("trans", [])]
+    if pre:
+        pre.append(["dump", "t"])
     if s["source"] == "api":
         for j, sent in enumerate(tb):
             ops.append(["build", "t", sent, s["shuffle"] + j])
+            ops.extend(pre)
             ops.append(["extract", "t", "g"])
             if dumps:
                 ops.append(["gdump", "g"])
@@ -71,7 +91,7 @@ def session_ops(s, i, files, order=None, dumps=True):
         files[path] = cm.render_file({"tb": tb, "codec": codec, "layout": s["layout"],
                                       "enc": "utf-8"})
         ops.append(["reader", "r", fmt, path, "utf-8", {"quiet": True}])
-        body = [["extract", "t", "g"]]
+        body = pre + [["extract", "t", "g"]]
         if dumps:
             body.append(["gdump", "g"])
         ops.append(["loop", "r", "t", body])
@@ -89,7 +109,7 @@ def seen_tb(s):
 
 def execute(sc, sim):
     st = cm.Stats()
-    st.declare("rule_count_above_1", "same_rule_two_vertical_contexts",
+    st.declare("extract_after_in_process_transformation", "rule_count_above_1", "same_rule_two_vertical_contexts",
                "sibling_constituents_equal_labels", "node_with_2plus_gaps", "unary_node",
                "interleaved_accumulators", "word_with_two_tags")
     viols = []
@@ -112,7 +132,16 @@ def execute(sc, sim):
         k = 0
         refg, refl = {}, {}
         bad = False
+        fed = []               # the sentences actually handed to extract
+        last_dump = None
         for rec in recs:
+            if rec["op"] == "dump" and "ok" in rec:
+                last_dump = rec["ok"]
+                continue
+            if "exc" in rec and rec["op"] == "trans":
+                st.probe("pipeline_failed_before_extract")
+                bad = True
+                break
             if "exc" in rec:
                 viols.append(cm.viol("C06/raised/%s/%s" % (rec["op"], rec["exc"]),
                                      msg=rec.get("msg"), session=i, after_sentences=k))
@@ -124,21 +153,34 @@ def execute(sc, sim):
                     viols.append(cm.viol("C06/more-trees-than-sentences", session=i))
                     bad = True
                     break
-                refgram.extract([tb[k - 1]], refg, refl)
+                cur = tb[k - 1]
+                if s.get("trans"):
+                    if last_dump is None or treeview.wellformed(last_dump) or \
+                            not treeview.index(last_dump)[last_dump["ret"]]["c"]:
+                        st.probe("pipeline_result_not_judged")
+                        bad = True
+                        break
+                    cur = treeview.to_sentence(last_dump)
+                    st.probe("extract_after_in_process_transformation")
+                    last_dump = None
+                fed.append(cur)
+                refgram.extract([cur], refg, refl)
                 g, lx = refgram.from_dump(rec["ok"])
                 st.check("steps_with_conservation_and_refinement")
-                v = check_step(g, lx, refg, refl, tb[:k], i, k)
+                v = check_step(g, lx, refg, refl, fed, i, k)
                 if v:
                     viols.append(v)
                     bad = True
                     break
                 finals[i] = (g, lx)
             elif rec["op"] == "gcf":
-                want = all(model.is_continuous(x) for x in tb)
+                want = all(model.is_continuous(x) for x in (fed if s.get("trans") else tb))
                 st.check("contextfree_flag")
                 if bool(rec["ok"]) != want:
                     viols.append(cm.viol("C06/contextfree-flag", session=i, expected=want,
                                          got=rec["ok"]))
+        if bad:
+            finals.pop(i, None)
         if not bad and k != len(tb):
             viols.append(cm.viol("C06/tree-count", session=i, expected=len(tb), got=k))
         # probes
